@@ -279,6 +279,26 @@ def opsC18 : List (String × Handler) := [
           if !(allTopkOk largest (ref.map fun r => nbr.map (dist o r)) kk) then throw "contract-topk"
           return fmtMixed (fmt (rows.flatMap (·.1))) (fmtNats (rows.flatMap (·.2)))
       | _ => throw "arity"),
+  -- c18.api.knnu ord largest k D N1 N2 <ref> <nbr>   -> knn(sorted=False): values / indices of an answer meeting the UNSORTED contract
+  ("c18.api.knnu", fun ts => do
+      match ts with
+      | o :: lg :: kk :: d :: n1 :: n2 :: rest =>
+        let o ← parseNorm o; let lg ← nat lg; let kk ← nat kk
+        let d ← nat d; let n1 ← nat n1; let n2 ← nat n2
+        let xs ← nums rest
+        let (ref, xs) ← takeCloud d n1 xs
+        let (nbr, _) ← takeCloud d n2 xs
+        let largest := lg == 1
+        if normRaises o d then throw "norm-empty"
+        -- stand-in for the unsorted kernel: the sorted stand-in with its answer reversed (any order is allowed)
+        let topkU : Bool → List BigF → Nat → List Nat := fun l v k => (topkStd l v k).reverse
+        match knnApiS topkStd topkU d o largest false kk ref nbr with
+        | none => throw "k-range"
+        | some rows =>
+          if !((ref.map fun r => nbr.map (dist o r)).all fun dr => topkOkUnsorted largest dr kk (topkU largest dr kk)) then
+            throw "contract-topk"
+          return fmtMixed (fmt (rows.flatMap (·.1))) (fmtNats (rows.flatMap (·.2)))
+      | _ => throw "arity"),
   -- c18.api.randf D N num B <perm(N)> <B clouds>   -> B*num*D numbers (one draw for every batch item); err check
   ("c18.api.randf", fun ts => do
       match ts with
